@@ -167,6 +167,8 @@ SHAPES = [
     [((1,), 0), ((0,), 1), ((2,), 2)],             # ring + independent self loop
     [((0,), 1), ((1,), 2), ((3,), 3)],             # chain without cycle + self loop
     [((0,), 1), ((1,), 2), ((2,), 3)],             # no cycle at all
+    [((0, 1), 0), ((0, 1), 1)],                    # two mutually feeding accumulators: cycles {0}, {1}, {0,1}
+    [((0, 1), 0), ((0, 1), 1), ((1, 2), 2)],       # ... plus a third accumulator fed by the second
 ]
 
 
@@ -187,44 +189,99 @@ def _numbers(isa, shape_idx, lats):
 
 def lcd_numbers_int(shape: int, l0: int, l1: int, l2: int) -> bool:
     """
-    pre: 0 <= shape < 8 and 0 <= l0 <= 100 and 0 <= l1 <= 100 and 0 <= l2 <= 100
+    pre: 0 <= shape < len(SHAPES) and 0 <= l0 <= 100 and 0 <= l1 <= 100 and 0 <= l2 <= 100
     post: _
     """
-    lo, hi = shard(8)
+    lo, hi = shard(len(SHAPES))
     if not (lo <= shape < hi):
         return True
     if skip(locals()):
         return True
     from vp.symx import pick
-    return _numbers("x86", pick(shape, 8), [l0, l1, l2])
+    return _numbers("x86", pick(shape, len(SHAPES)), [l0, l1, l2])
 
 
 def lcd_numbers_float(shape: int, l0: float, l1: float, l2: float) -> bool:
     """
-    pre: 0 <= shape < 8 and 0 <= l0 <= 100 and 0 <= l1 <= 100 and 0 <= l2 <= 100
+    pre: 0 <= shape < len(SHAPES) and 0 <= l0 <= 100 and 0 <= l1 <= 100 and 0 <= l2 <= 100
     post: _
     """
-    lo, hi = shard(8)
+    lo, hi = shard(len(SHAPES))
     if not (lo <= shape < hi):
         return True
     if skip(locals()):
         return True
     from vp.symx import pick
-    return _numbers("aarch64", pick(shape, 8), [l0, l1, l2])
+    return _numbers("aarch64", pick(shape, len(SHAPES)), [l0, l1, l2])
 
 
 def lcd_numbers_float2(shape: int, l0: float, l1: float) -> bool:
     """
-    pre: 0 <= shape < 8 and 0 <= l0 <= 100 and 0 <= l1 <= 100
+    pre: 0 <= shape < len(SHAPES) and 0 <= l0 <= 100 and 0 <= l1 <= 100
     post: _
     """
-    lo, hi = shard(8)
+    lo, hi = shard(len(SHAPES))
     if not (lo <= shape < hi):
         return True
     if skip(locals()):
         return True
     from vp.symx import pick
-    return _numbers("aarch64", pick(shape, 8), [l0, l1, 3.0])
+    return _numbers("aarch64", pick(shape, len(SHAPES)), [l0, l1, 3.0])
+
+
+# ---- LCD column of the combined report (concrete latencies incl. 0) ------------------------------
+
+def _column(text, n):
+    """{line index: LCD cell text} parsed from combined_view"""
+    out = {}
+    for ln in text.split("\n"):
+        parts = ln.split("|")
+        if len(parts) >= 5 and parts[0].strip().isdigit():
+            out[int(parts[0]) - 1] = parts[-2].strip()
+    return out
+
+
+LATS3 = [0.0, 1.0, 3.0]
+
+
+def _column_concrete(shape_idx, li):
+    isa = "x86"
+    shape = SHAPES[shape_idx]
+    n = len(shape)
+    lats = [LATS3[i] for i in li][:n]
+    kernel, instrs = [], []
+    for i, (rs, w) in enumerate(shape):
+        kernel.append(iform(i + 1, src=[class_reg(isa, c) for c in rs], dst=[class_reg(isa, w)], lat=lats[i]))
+        instrs.append((set(rs), {w}))
+    g, deps, got, bad = _observe(isa, kernel)
+    ref = _reference(instrs, lats)
+    fe = _frontend(isa)
+    for k in kernel:
+        k.port_pressure = [0.0]
+    col = _column(fe.combined_view(kernel, g.get_critical_path(), deps), n)
+    marked = set(i for i, v in col.items() if v != "")
+    ok = (not bad) and set(got) == set(ref)
+    if not ref:
+        ok = ok and not marked
+    else:
+        best = max(ref.values())
+        cands = [set(m) for m, l in ref.items() if l == best]
+        ok = ok and any(marked == c for c in cands)
+        # each marked cell shows the latency of the edge leaving that member
+        ok = ok and all(float(col[i]) == lats[i] for i in marked)
+    return ok, len(ref) > 0, {"shape": shape_idx, "lat": lats, "marked": sorted(marked)}
+
+
+def lcd_column(shape: int, a: int, b: int, c: int) -> bool:
+    """
+    pre: 0 <= shape < len(SHAPES) and 0 <= a < 3 and 0 <= b < 3 and 0 <= c < 3
+    post: _
+    """
+    if skip(locals()):
+        return True
+    from vp.symx import pick
+    ok, nt, sample = native(_column_concrete, pick(shape, len(SHAPES)), [pick(a, 3), pick(b, 3), pick(c, 3)])
+    return verdict(ok, nontrivial=nt, sample=sample)
 
 
 # ---- flags --------------------------------------------------------------------------------
@@ -270,12 +327,13 @@ CELLS = {
     "lcd5_x86": {"fn": lcd5_x86, "tiers": ("thorough",), "bound": "n=5, one read + one write per instruction, all Bell(10)=115975 patterns; real code native per pattern", "budget": {"thorough": 3000}, "shards": 203},
     "lcd3_traced": {"fn": lcd3_traced, "tiers": ("thorough",), "bound": "n=3 as lcd3_x86 but the real code runs under the tracer", "budget": {"thorough": 900}, "shards": 15},
     "lcd3_a64": {"fn": lcd3_a64, "tiers": ("thorough",), "bound": "as lcd3_x86 on AArch64 (x/w aliases)", "budget": {"thorough": 600}, "shards": 5},
-    "lcd2_two_reads": {"fn": lcd2_two_reads, "tiers": ("thorough",), "bound": "n=2, two reads + one write per instruction, all patterns", "budget": {"thorough": 600}, "shards": 5},
-    "lcd_numbers_float2": {"fn": lcd_numbers_float2, "tiers": ("quick",), "bound": "8 fixed cycle shapes, latencies of instructions 0 and 1 real-valued symbolic in [0,100], third = 3.0",
-                           "budget": {"quick": 170}, "shards": 8},
-    "lcd_numbers_int": {"fn": lcd_numbers_int, "tiers": ("thorough",), "bound": "8 fixed cycle shapes (self loop, rings, shared nodes, several cycles through one instruction, no cycle), all int latencies 0..100",
-                        "budget": {"thorough": 1200}, "shards": 8},
+    "lcd2_two_reads": {"fn": lcd2_two_reads, "bound": "n=2, two reads + one write per instruction, all patterns", "budget": {"thorough": 600}, "shards": 5},
+    "lcd_numbers_float2": {"fn": lcd_numbers_float2, "tiers": ("quick",), "bound": "10 fixed cycle shapes, latencies of instructions 0 and 1 real-valued symbolic in [0,100], third = 3.0",
+                           "budget": {"quick": 170}, "shards": 10},
+    "lcd_numbers_int": {"fn": lcd_numbers_int, "tiers": ("thorough",), "bound": "10 fixed cycle shapes (self loop, rings, shared nodes, several cycles through one instruction, no cycle), all int latencies 0..100",
+                        "budget": {"thorough": 1200}, "shards": 10},
     "lcd_numbers_float": {"fn": lcd_numbers_float, "tiers": ("thorough",), "bound": "same shapes, real-valued latencies (CrossHair real-based floats)", "budget": {"thorough": 900}, "shards": 8},
+    "lcd_column": {"fn": lcd_column, "bound": "LCD column of the combined report on the 10 cycle shapes x latencies from {0,1,3} per instruction (zero-latency edges included)", "budget": {"quick": 150, "thorough": 300}},
     "lcd_flags": {"fn": lcd_flags, "bound": "n=3, flag read/write bits per instruction, flag_dependencies on/off, same/different flag name", "budget": {"quick": 170, "thorough": 600}},
 }
 
